@@ -1,7 +1,7 @@
 From Coq Require Import List PArith Bool Extraction ExtrOcamlBasic.
 From C12 Require Import Bind.
-From C05 Require Import Vtable PassValidators ArgParse Guarded Uninit Exc.
+From C05 Require Import Vtable PassValidators ArgParse Guarded Uninit Exc Final.
 Extraction "c05.ml" compute_all wf_ct view Vtable.slot_of mro_lookup resolve
   validate_copyprop validate_flagelim
   parse_wrapper parse_general make_parser py_bind cpython_bind to_formal
-  validate_uninit validate_exceptions.
+  validate_uninit validate_exceptions is_method_final find_cls.
